@@ -249,7 +249,8 @@ class OptunaStorageProxyService(api_pb2_grpc.StorageServiceServicer):
     ) -> api_pb2.SetTrialStateValuesReply:
         trial_id = request.trial_id
         state = request.state
-        values = request.values
+        # An empty repeated field means that ``values`` is not given.
+        values = list(request.values) or None
         try:
             trial_updated = self._backend.set_trial_state_values(
                 trial_id, _from_proto_trial_state(state), values
